@@ -5,4 +5,7 @@ import (
 	"verifharness/hlib"
 )
 
-func main() { hlib.Main(map[string]func(*hlib.Ctx){"C11": diodeh.RunC11}) }
+func main() {
+	diodeh.FatalChild()
+	hlib.Main(map[string]func(*hlib.Ctx){"C11": diodeh.RunC11})
+}
